@@ -340,6 +340,17 @@ func (r *run) call(caller *frame, callpos token.Pos, fn value, args []value) val
 	panic(engineError{fmt.Sprintf("cannot call %T", fn)})
 }
 
+func calledFromModel(caller *frame, m *ssa.Function) bool {
+	if caller == nil || caller.fn == nil {
+		return false
+	}
+	f := caller.fn
+	for f.Parent() != nil {
+		f = f.Parent()
+	}
+	return f == m
+}
+
 func (r *run) callSSA(caller *frame, callpos token.Pos, fn *ssa.Function, args []value, env []value) value {
 	r.depth++
 	r.stack = append(r.stack, fn)
@@ -355,11 +366,12 @@ func (r *run) callSSA(caller *frame, callpos token.Pos, fn *ssa.Function, args [
 				return nil // external packages initialise lazily
 			}
 		}
-		if m := r.eng.modelFor(name); m != nil && !r.inModel[name] {
-			// harness model replaces the callee
+		if m := r.eng.modelFor(name); m != nil && !calledFromModel(caller, m) {
+			// harness model replaces the callee (a call made by the model's
+			// own body reaches the real function: models may wrap it; calls
+			// made further down - a hook of the repository called by the
+			// model - are modelled again)
 			r.noteFunc(m)
-			r.inModel[name] = true
-			defer func() { delete(r.inModel, name) }()
 			// a model may declare a parameter as an interface where the callee
 			// has a concrete (receiver) type: box the argument accordingly
 			margs := args
@@ -667,8 +679,15 @@ func sideBlock(x, pred *ssa.BasicBlock) (*ssa.BasicBlock, bool) {
 		switch in := in.(type) {
 		case *ssa.BinOp:
 			switch in.Op {
-			case token.QUO, token.REM, token.SHL, token.SHR:
+			case token.QUO, token.REM:
 				return nil, false
+			case token.SHL, token.SHR:
+				// a shift panics only for a negative signed count
+				if _, signed, isInt := intInfo(in.Y.Type()); !isInt || signed {
+					if k, isConst := in.Y.(*ssa.Const); !isConst || k.Value == nil || k.Int64() < 0 {
+						return nil, false
+					}
+				}
 			}
 		case *ssa.UnOp:
 			if in.Op == token.ARROW {
